@@ -262,7 +262,10 @@ async def scenario(case: dict[str, Any], out: dict[str, Any]) -> None:
         namesake = type(declared.__name__, (_Event,), {"__module__": declared.__module__, "__init__": lambda self, n=0: None})
         namesake.__qualname__ = declared.__qualname__
         wrongs: list[Any] = [("namesake of the declared class", lambda: namesake(0)), ("the Event base class", lambda: _Event()),
-                             ("a str", lambda: "event"), ("None", lambda: None)]
+                             ("a str", lambda: "event"), ("None", lambda: None),
+                             # the parentheses forgotten: the event *class* (or a subclass of it) instead of an instance
+                             ("the declared event class itself (not an instance)", lambda: declared),
+                             ("a subclass object of the declared event class", lambda: type("SubOfDeclared", (declared,), {"__slots__": ()}))]
         other = next((e for e in evs if not issubclass(e, declared) and e is not declared), None)
         if other is not None:
             wrongs.append((f"class {other.__name__}", lambda other=other: other(0)))
